@@ -920,7 +920,6 @@ type c10case struct {
 	Rot   int    `json:"maprot"`
 	// dimensions added on top of the single-call enumeration
 	Seq    []string   `json:"seq,omitempty"`    // operation descriptors submitted, in order, to ONE long-lived instance
-	At     int        `json:"at,omitempty"`     // index in Seq of the operation the verdict is about
 	Faults []c10fault `json:"faults,omitempty"` // beacon node fault script in force during the (last) call
 	Num    string     `json:"num,omitempty"`    // boundary value (decimal) of the peer-controlled integer
 }
